@@ -35,6 +35,8 @@ RULES = {
             "FrameShape", "FrameSizeField", "StopCameraIncomplete"},
 }
 HARNESS_RULES = {"UnknownEvent"}
+for _k in RULES:
+    RULES[_k].add("Crash")   # the code under test crashed (signal) during the execution
 
 
 def frame_bytes(w, h, ty):
@@ -62,7 +64,8 @@ def stream_line(rng, s, fam, avg=1):
     if avg > 1:
         n = rng.randint(avg, 5 * avg + 1)
     d = dict(frames=n, w=w, h=h, type=ty, avg=avg, delay_ms=rng.choice([0, 0, 0, 2, 10]), trigger=0,
-             camfail=-1, stofail=-1, slow=rng.choice([0, 0, 1, 2, 4]), pace=rng.choice([0, 0, 1, 3]), zero=-1)
+             camfail=-1, stofail=-1, slow=rng.choice([0, 0, 1, 2, 4]), pace=rng.choice([0, 0, 1, 3]), zero=-1,
+             camstop=rng.choice([0, 0, 0, 2, 6, 15, 40]))
     return d
 
 
@@ -203,6 +206,19 @@ def gen_lifecycle(rng, out, i):
     running = False
     registered = set()   # streams whose monitor reader the client has registered since the last stop/abort
     n = rng.randint(4, 14)
+    if rng.random() < 0.25:
+        # a client that lets finite acquisitions finish by themselves and restarts as soon as the runtime reports Armed
+        for d in streams:
+            d["frames"] = rng.choice([1, 2, 4])
+            d["trigger"] = 0
+        c = rng.choice(CFGS[:6])
+        prog += ["cfg"] + c.split()
+        for _ in range(rng.randint(1, 3)):
+            prog += ["start", "pollstate"]
+            if rng.random() < 0.3:
+                prog += ["cfg"] + c.split()
+        prog += [rng.choice(["start", "stop", "abort", "state"])]
+        n = 0
     for step in range(n):
         r = rng.random()
         if step == 0 and rng.random() < 0.75:
@@ -234,7 +250,13 @@ def gen_lifecycle(rng, out, i):
             running = False
             registered = set()
         elif r < 0.82:
-            prog += ["state"]
+            if running and not any(d["frames"] < 0 or d["trigger"] for d in streams) and rng.random() < 0.6:
+                # wait for the finite acquisition to finish by itself, then carry on without stop (restart is legal then)
+                for s in sorted(registered):
+                    prog += ["monitor", str(s), "-1", "0"]
+                prog += ["pollstate"] + (["start"] if rng.random() < 0.7 else [])
+            else:
+                prog += ["state"]
         elif r < 0.90:
             s = rng.randrange(2)
             registered.add(s)
